@@ -100,6 +100,9 @@ SubTsDur(l, r) ==
                  THEN (IF secs + nan \div NPS > DMAX THEN PANIC ELSE Some(secs + nan \div NPS, nan % NPS))
                  ELSE Some(secs, nan)
 
+\* impl TryFrom<Duration> for TimeSpec: tv_sec: d.as_secs().try_into()?, tv_nsec: d.subsec_nanos().into()
+DurToTimeSpec(x) == IF x.s > SMAX THEN None ELSE Some(x.s, x.ns)
+
 \* #[derive(Ord)] on TimeSpec(__kernel_timespec { tv_sec, tv_nsec }): lexicographic
 CodeLeq(a, b) == a.s < b.s \/ (a.s = b.s /\ a.ns <= b.ns)
 
@@ -117,6 +120,7 @@ Next == UNCHANGED <<t, u, d>>
 NonNeg(x) == x.s >= 0
 \* exactness, inside the statement's quantifier: time values at or after the epoch / boot
 Exact ==
+    /\ DurToTimeSpec(d) = D!ToTime(d)
     /\ NonNeg(t) => /\ CheckedAddDur(t, d) = D!AddDur(t, d)
                     /\ CheckedSubDur(t, d) = D!SubDur(t, d)
                     /\ SubTsDur(t, [s |-> 0, ns |-> 0]) = Some(t.s, t.ns)      \* duration_since_unix_time
